@@ -181,9 +181,9 @@ impl Property for C04 {
         sc.at(0, Op::Bootstrapped { node: 0 });
         // an application watching the node come up: API calls land in the loop turns in which the
         // bootstrap completes (the node then says it is bootstrapped; searches must run)
-        if rng.chance(1, 4) {
+        if rng.chance(1, 8) {
             let period = *rng.pick(&[1u64, 1, 2, 3]);
-            sc.at(0, Op::SampleEvery { node: 0, period_ms: period, count: ((3_000 + 12 * sc.net.lat_max_ms) / period).min(4_000) as u32, table: false });
+            sc.at(0, Op::SampleEvery { node: 0, period_ms: period, count: ((2_000 + 8 * sc.net.lat_max_ms) / period).min(2_500) as u32, table: false });
             sc.params.insert("polling".into(), 1);
         }
         // message loss during the search in some runs (another way of being silent)
@@ -433,7 +433,7 @@ impl Property for C04 {
         v
     }
     fn rule(&self) -> &'static str {
-        "one real node bootstrapped against 0..30 stubs whose get_peers behaviour varies per stub: silent, partial (pattern), late (RTT 1.4..3.1 s around the 1.5 s timeout), silent after bootstrap, chain-naming (<= 25 levels x 8 names), error/garbage repliers, honest with peers; optional loss/duplication during the search, send failures (outage windows or random) before/during the search; 1..3 searches, sequential or overlapping, or issued after every contact has gone stale; in 1 run of 4 an application polls get_state/load_contacts/local_addr every 1..3 ms while the node bootstraps; in 1 run of 6 (>= 4 stubs) one search is for a popular info-hash (40..120 values per answer) whose stream the caller reads only 4..120 s later or drops, while another search runs; in 1 run of 8 every handle of the node is dropped 0..9 s into the searches (shutdown: open streams must close at once); plus a single-fault sweep (drop / delay past 1.5 s / duplicate / send error on each search datagram) on a subset of fault-free base runs. non-trivial = a search sent at least one query; distinct = distinct order digests"
+        "one real node bootstrapped against 0..30 stubs whose get_peers behaviour varies per stub: silent, partial (pattern), late (RTT 1.4..3.1 s around the 1.5 s timeout), silent after bootstrap, chain-naming (<= 25 levels x 8 names), error/garbage repliers, honest with peers; optional loss/duplication during the search, send failures (outage windows or random) before/during the search; 1..3 searches, sequential or overlapping, or issued after every contact has gone stale; in 1 run of 8 an application polls get_state/load_contacts/local_addr every 1..3 ms while the node bootstraps; in 1 run of 6 (>= 4 stubs) one search is for a popular info-hash (40..120 values per answer) whose stream the caller reads only 4..120 s later or drops, while another search runs; in 1 run of 8 every handle of the node is dropped 0..9 s into the searches (shutdown: open streams must close at once); plus a single-fault sweep (drop / delay past 1.5 s / duplicate / send error on each search datagram) on a subset of fault-free base runs. non-trivial = a search sent at least one query; distinct = distinct order digests"
     }
     fn assumptions(&self) -> Vec<&'static str> {
         vec!["no socket stalls in this family (they would move the query instants the early-close clause is measured from)", "+-2 ms timer granularity", "'node has shut down' is produced by dropping every handle while search streams are open (a handler killed by a panic cannot be produced through the public API after the C15 repair)"]
